@@ -1,10 +1,11 @@
 #!/bin/bash
-# usage: selftest/run_all_green.sh <root-dir-with-<ID>/<k>/patch.diff> [tier]
+# usage: selftest/run_all_green.sh <root-dir-with-<ID>/<k>/patch.diff> [tier] [name-regex]
 # Runs every behaviour-preserving change under <root> against its property's check; prints one line per change.
-root="${1:-/verif/green}"; tier="${2:-quick}"
+root="${1:-/verif/green}"; tier="${2:-quick}"; only="${3:-.}"
 cd "$(dirname "$0")/.."
 for d in "$root"/C*/*/ "$root"/C*-*/; do
   [ -f "$d/patch.diff" ] || continue
+  echo "$d" | grep -qE "$only" || continue
   id=$(echo "$d" | grep -oE "C[0-9]{2}" | head -1)
   res=$(selftest/green_run.sh "$d" "$id" "$tier" 2>&1)
   verdict=$(echo "$res" | grep -E "^(SILENT|FALSE-ALARM|NOT-CLEAN|PATCH|DOES|FAILS)" | head -1)
